@@ -17,7 +17,10 @@ MANIFEST = {
             "Lean driver; (behavioural) all scenarios are compiled by the real compiler into ONE program, built and "
             "run, and each scenario's probe trace must equal evalGo(lower p) = specEval p computed by the driver; "
             "the property oracle compares the trace with the generator's own documented explicit Go expansion "
-            "compiled by plain Go in the same binary.",
+            "compiled by plain Go in the same binary.  `lower` is a pure function of the tree (C02_lower_pure): "
+            "a compiler that mutates the AST so that a node compiled again (overload retry in compileCallExpr) "
+            "gets different code is outside every theorem and is covered only by the harness family "
+            "`overload_arg` (sugar as arguments of overloaded calls whose first candidates reject another argument).",
     "note": "trusted: Lean kernel + propext/Classical.choice/Quot.sound; the hand-written Go semantics of M4 (ints "
             "unbounded, slices as values, map iteration in key order, no aliasing) tied to real Go only by the "
             "differential run; the type annotations on sugar nodes stand for gogen's type inference; generators keep "
@@ -31,7 +34,9 @@ RULE = ("generated MiniXGo scenario functions (one XGo package per batch of 150,
         "built and run once): list/map literals with effectful elements, `a <- v...` (also `...`), for-in "
         "(key/no key, filter with side effects, nested, over lists and maps), list/map/select(1,2 values)/exists "
         "comprehensions with 1-3 for-phrases (outer variables used by inner containers and filters, `if x := i; c`, "
-        "probed containers, nested comprehensions as container or element), command-style calls; containers "
+        "probed containers, nested comprehensions as container or element), command-style calls, sugar as "
+        "arguments of 2-3-candidate overloaded functions where earlier candidates reject the last argument "
+        "(every argument compiled 2-3 times); containers "
         "empty/singleton/duplicates/longer; non-trivial = distinct scenario whose trace has >= 3 events")
 
 
